@@ -16,7 +16,7 @@ from .common import REPO, VERIF, HarnessError, canon, h8, seed_value, setup_path
 
 KNOWN_FILE = os.path.join(VERIF, "KNOWN_FINDINGS.txt")
 OUT = os.environ.get("VERIF_OUT", VERIF)     # where evidence and newly found replays go (selftest redirects it)
-CASE_TIMEOUT = 30
+CASE_TIMEOUT = 20
 
 
 class CaseTimeout(BaseException):
@@ -164,6 +164,9 @@ def _shard(args: Tuple[str, str, int, int, int]) -> Agg:
                   suppress_health_check=list(HealthCheck), report_multiple_bugs=False)
         @given(strat)
         def test(case: Any) -> None:
+            if len(agg.timeouts) >= 2:
+                agg.stats["skipped_after_timeouts"] += 1     # a tree on which cases hang: do not spend 20 s on each
+                return
             out = timed_case(engine, case)
             if out.get("timeout"):
                 agg.timeouts.append(case)
@@ -187,6 +190,9 @@ def _sweep_chunk(args: Tuple[str, str, int, int]) -> Agg:
     _, cases, _ = sw
     for i, case in enumerate(cases):
         if i % nparts != part:
+            continue
+        if len(agg.timeouts) >= 2:
+            agg.stats["skipped_after_timeouts"] += 1
             continue
         out = timed_case(engine, case)
         if out.get("timeout"):
